@@ -13,7 +13,8 @@ import vlib
 
 def _block3_traces(ck, wd, exe, sf, nsys, tier, seed):
     # every recorded phase of the real solver must be a step of Block3 from the model's current state (Trace_Block3)
-    stride = 8 if tier == "quick" else 1
+    # the trace specification replays about 70000 records a minute on one worker: at most ~60000 executions
+    stride = 8 if tier == "quick" else max(1, -(-nsys // 60000))
     tr = os.path.join(wd, "block3.ndjson")
     rc, so, err, _ = vlib.run_driver(exe, ["trace", sf, str(stride), str(seed % stride), tr], timeout=1500, env={"OMP_NUM_THREADS": "2"})
     if rc != 0:
